@@ -14,41 +14,6 @@ open Casket.Path Casket.FS Casket.FileServe Casket.Chain Casket.ChainSpec Casket
 
 /-! ## §1 one spelling, one decision: Path.Matches on a rooted path and on its canonical form -/
 
-theorem jailElems_eq (p : Bytes) : jailElems p = cleanElems true p := by
-  unfold jailElems cleanElems
-  have : splitOn slash (slash :: p) = [] :: splitOn slash p := by simp [splitOn]
-  rw [this, List.foldl_cons]
-  simp [cleanStep]
-
-theorem foldl_cleanStep_push (E st : List Bytes) (h : NormalSegs E) :
-    E.foldl (cleanStep true) st = E.reverse ++ st := by
-  induction E generalizing st with
-  | nil => rfl
-  | cons s rest ih =>
-    have hs := h s (by simp)
-    have h1 : ¬ (s = [] ∨ s = dotSeg) := fun hh => hh.elim hs.1 hs.2.1
-    have hstep : cleanStep true st s = s :: st := by simp [cleanStep, h1, hs.2.2.1]
-    rw [List.foldl_cons, hstep, ih _ (fun x hx => h x (by simp [hx]))]
-    simp
-
-/-- cleaning a canonical path changes nothing -/
-theorem cleanElems_canon (E : List Bytes) (h : NormalSegs E) : cleanElems true (slash :: joinSlash E) = E := by
-  unfold cleanElems
-  have hs : splitOn slash (slash :: joinSlash E) = [] :: splitOn slash (joinSlash E) := by simp [splitOn]
-  rw [hs, List.foldl_cons]
-  have h0 : cleanStep true [] [] = [] := by simp [cleanStep]
-  rw [h0]
-  by_cases hE : E = []
-  · subst hE; simp [joinSlash, splitOn, cleanStep]
-  · rw [splitOn_joinSlash E hE (fun s hs => (h s hs).2.2.2), foldl_cleanStep_push E [] h]
-    simp
-
-theorem clean_rooted (t : Bytes) : clean (slash :: t) = slash :: joinSlash (jailElems (slash :: t)) := by
-  rw [jailElems_eq]; simp [clean]
-
-theorem clean_canon (E : List Bytes) (h : NormalSegs E) : clean (slash :: joinSlash E) = slash :: joinSlash E := by
-  rw [clean_rooted, jailElems_eq, cleanElems_canon E h]
-
 theorem hasSuffix_singleton (s : Bytes) (c : UInt8) : hasSuffix s [c] = true ↔ s.getLast? = some c := by
   unfold hasSuffix
   rw [List.getLast?_eq_head?_reverse]
